@@ -109,6 +109,12 @@ func refAcceptStatic(in []reflect.Type, out []reflect.Type, declIn []schema.Type
 
 var errHandler = errors.New("handler-reported failure")
 
+// what a handler may return as its error: nothing, a plain error, a call-shape error that it got from
+// mis-calling another function, or that wrapped with %w. All of them are errors *the handler returned*.
+var errNestedShape = schema.NewFunctionCallError(errors.New("inner call had the wrong number of arguments"), false)
+var errWrappedShape = fmt.Errorf("handler could not finish: %w", errNestedShape)
+var c18HandlerErrors = []error{nil, errHandler, errNestedShape, errWrappedShape}
+
 func runC18(c *wk.Ctx) {
 	c.Meta("rule", "exhaustive matrix: handler parameter lists of length 0..3 over 11 native types (incl. a named string type and two schemas sharing int64) x 11 result shapes (none, value, error, value+error, extra results, non-error last, a non-error type NAMED error, an interface named error, error first) x declared inputs {exact, one type swapped, one dropped, one added} x declared output {nil, matching, other} x error flag, for NewCallableFunction; the dynamic constructor over the same handlers; every accepted function is called with 0..4 arguments, with nil and non-nil handler errors; variadic handlers as an extra column. distinct = hash of (handler signature, declaration); all cases non-trivial")
 	c.Meta("assumptions", []string{"handlers are synthesised with reflect.MakeFunc, so only signatures (not bodies) vary", "non-func / nil handlers and wrongly typed call arguments are outside the property's quantifier"})
@@ -159,7 +165,7 @@ func runC18(c *wk.Ctx) {
 		sigName := fmt.Sprintf("func(%s) %s[%s,%s]", plNames(pool, pl), rs.name, v.name, w.name)
 		// The handler records its arguments and returns fixed values.
 		var gotArgs []any
-		retErr := false
+		retErr := 0
 		ft := reflect.FuncOf(in, out, false)
 		handler := reflect.MakeFunc(ft, func(args []reflect.Value) []reflect.Value {
 			gotArgs = gotArgs[:0]
@@ -170,8 +176,9 @@ func runC18(c *wk.Ctx) {
 			for i, t := range out {
 				switch {
 				case t == errIface:
-					if retErr {
-						res[i] = reflect.ValueOf(&errHandler).Elem()
+					if retErr > 0 {
+						e := c18HandlerErrors[retErr]
+						res[i] = reflect.ValueOf(&e).Elem()
 					} else {
 						res[i] = reflect.Zero(t)
 					}
@@ -318,7 +325,7 @@ func plNames(pool []c18Type, pl []int) string {
 }
 
 // c18Calls exercises an accepted function with argument lists of every length.
-func c18Calls(c *wk.Ctx, fn schema.CallableFunction, pool []c18Type, pl []int, hasValue bool, v c18Type, hasErr bool, gotArgs *[]any, retErr *bool, wit map[string]any, kind string) {
+func c18Calls(c *wk.Ctx, fn schema.CallableFunction, pool []c18Type, pl []int, hasValue bool, v c18Type, hasErr bool, gotArgs *[]any, retErr *int, wit map[string]any, kind string) {
 	for nargs := 0; nargs <= 4; nargs++ {
 		args := make([]any, nargs)
 		for i := range args {
@@ -328,17 +335,18 @@ func c18Calls(c *wk.Ctx, fn schema.CallableFunction, pool []c18Type, pl []int, h
 				args[i] = int64(i)
 			}
 		}
-		for _, withErr := range []bool{false, true} {
+		for errMode := range c18HandlerErrors {
+			withErr := errMode > 0
 			if withErr && !hasErr {
 				continue
 			}
-			*retErr = withErr
+			*retErr = errMode
 			*gotArgs = (*gotArgs)[:0]
 			var res any
 			var err error
 			p, site, msg, _ := wk.Guard(func() { res, err = fn.Call(args) })
 			c.Count("calls")
-			w := map[string]any{"declaration": wit, "nargs": nargs, "handler_returns_error": withErr}
+			w := map[string]any{"declaration": wit, "nargs": nargs, "handler_returns_error": errMode}
 			if p {
 				c.Violation("C18:call:panic:"+kind+":"+site, fmt.Sprintf("Call with %d argument(s) (declared %d) panicked: %s", nargs, len(pl), msg), w)
 				continue
@@ -355,8 +363,9 @@ func c18Calls(c *wk.Ctx, fn schema.CallableFunction, pool []c18Type, pl []int, h
 			if withErr {
 				if err == nil {
 					c.Violation("C18:call:handler-error-lost:"+kind, "handler returned an error but Call returned nil", w)
-				} else if !errors.As(err, &fce) || !fce.IsFunctionReportedError || !errors.Is(fce.SourceError, errHandler) {
-					c.Violation("C18:call:handler-error-misattributed:"+kind, fmt.Sprintf("handler error came back as %#v", err), w)
+				} else if fce2, ok := err.(*schema.FunctionCallError); !ok || !fce2.IsFunctionReportedError || fce2.SourceError != c18HandlerErrors[errMode] {
+					w["handler_error"] = fmt.Sprintf("%#v", c18HandlerErrors[errMode])
+					c.Violation("C18:call:handler-error-misattributed:"+kind, fmt.Sprintf("handler returned %q but Call reported %#v (must be function-reported and carry exactly the handler's error)", c18HandlerErrors[errMode], err), w)
 				}
 				continue
 			}
